@@ -40,8 +40,11 @@ def _is_reference(expr):
     if isinstance(expr, ast.Attribute):
         return _is_reference(expr.value)
     if isinstance(expr, ast.Subscript):
+        idx = expr.slice
+        if isinstance(idx, ast.UnaryOp) and isinstance(idx.op, ast.USub):
+            idx = idx.operand           # t[-1]
         return _is_reference(expr.value) and isinstance(
-            expr.slice, (ast.Constant, ast.Name, ast.Attribute))
+            idx, (ast.Constant, ast.Name, ast.Attribute))
     return False
 
 
@@ -80,6 +83,11 @@ def copy_env(func_node, graph=None):
                 if isinstance(tgt, ast.Name) and len(node.targets) == 1:
                     counts[tgt.id] = counts.get(tgt.id, 0) + 1
                     defs[tgt.id] = node.value
+                elif len(node.targets) == 1 and _unpack_defs(tgt, node.value):
+                    # a, b = t  ->  a = t[0], b = t[1];  a, b = x, y
+                    for name, val in _unpack_defs(tgt, node.value):
+                        counts[name] = counts.get(name, 0) + 1
+                        defs[name] = val
                 else:
                     for leaf in ast.walk(tgt):
                         if isinstance(leaf, ast.Name) and \
@@ -156,6 +164,54 @@ def copy_env(func_node, graph=None):
                 continue
             out[name] = val
     return out
+
+
+def _unpack_defs(tgt, value):
+    """Definitions made by a destructuring assignment of plain names from a
+    reference expression (projection by position) or from a display of the
+    same length; None when it is anything else."""
+    if not isinstance(tgt, (ast.Tuple, ast.List)) or not tgt.elts or \
+            not all(isinstance(e, ast.Name) for e in tgt.elts):
+        return None
+    names = [e.id for e in tgt.elts]
+    if len(set(names)) != len(names):
+        return None
+    if isinstance(value, (ast.Tuple, ast.List)):
+        if len(value.elts) != len(names) or any(
+                isinstance(e, ast.Starred) for e in value.elts):
+            return None
+        if set(names) & set(n.id for e in value.elts for n in ast.walk(e)
+                            if isinstance(n, ast.Name)):
+            return None         # a, b = b, a
+        return list(zip(names, value.elts))
+    if isinstance(value, ast.Subscript) and \
+            isinstance(value.slice, ast.Slice) and \
+            _is_reference(value.value) and value.slice.step is None and \
+            not (set(names) & mentions(value)):
+        # a, b = t[:2]  /  a, b = t[1:3]
+        low = value.slice.lower
+        if low is None or (isinstance(low, ast.Constant) and
+                           isinstance(low.value, int) and low.value >= 0):
+            start = low.value if low is not None else 0
+            return [(name, ast.Subscript(value=value.value,
+                                         slice=ast.Constant(
+                                             value=start + idx),
+                                         ctx=ast.Load()))
+                    for idx, name in enumerate(names)]
+        return None
+    if (_is_reference(value) or (
+            isinstance(value, ast.Call) and
+            isinstance(value.func, ast.Attribute) and
+            value.func.attr in ('partition', 'rpartition', 'split',
+                                'rsplit'))) and \
+            not (set(names) & mentions(value)):
+        # the pieces of a split string are projected like a reference:
+        # h, _s, p = d.partition(':') makes h stand for d.partition(':')[0]
+        return [(name, ast.Subscript(value=value,
+                                     slice=ast.Constant(value=idx),
+                                     ctx=ast.Load()))
+                for idx, name in enumerate(names)]
+    return None
 
 
 def _stores_after_uses(graph, name, paths):
@@ -269,7 +325,18 @@ class _Subst(ast.NodeTransformer):
         return node
 
     def visit_ListComp(self, node):
-        return node
+        # inside a comprehension: everything except the names it binds
+        # itself (and definitions that mention such a name)
+        bound = set()
+        for gen in node.generators:
+            for leaf in ast.walk(gen.target):
+                if isinstance(leaf, ast.Name):
+                    bound.add(leaf.id)
+        env = {k: v for k, v in self.env.items()
+               if k not in bound and not (mentions(v) & bound)}
+        if not env:
+            return node
+        return _Subst(env, self.depth).generic_visit(node)
 
     visit_SetComp = visit_DictComp = visit_GeneratorExp = visit_ListComp
 
